@@ -316,6 +316,30 @@ class Gen:
         else:
             t = self.sval(); e = ['look', 's' + t]; nv = 's' + t
         self.emit('ed', x, *sel, *e); put(nv)
+    def root_value_scenario(self, i):
+        """value objects made with new_root, their only pointer in static storage: created, allocation pressure (threshold collections,
+        the registry rehashed), read, mutated in place, pressure again, read, deleted with del_root"""
+        r = self.r
+        made = []
+        for ty in ('S', 'I') if i % 2 == 0 else ('I', 'S'):
+            d = self.free_slot()
+            if d is None: break
+            v = self.val(ty); self.s[d] = dict(kind='val', ty=ty, data=v); self.emit('nvo', d, v); made.append(d)
+        if not made: return
+        for _ in range(r.choice([2, 3])): self.emit('hchurn', r.choice([200, 300, 400]))
+        if i % 3 == 0: self.emit('gc')
+        saved = self.s
+        for d in made:
+            self.emit('len' if saved[d]['ty'] == 'S' else 'show', d)
+            self.s = {d: saved[d]}
+            if saved[d]['ty'] == 'S': self.edit_op(target='self')
+            else:
+                v = self.val('I'); saved[d]['data'] = v; self.emit('vset', d, v)
+        self.s = saved
+        for _ in range(r.choice([1, 2])): self.emit('hchurn', r.choice([200, 400]))
+        for d in made:
+            self.emit('show', d); self.emit('hash', d)
+            if r.random() < 0.7: del self.s[d]; self.emit('del', d)
     def edit_scenario(self, i):
         """a String object of each way of coming into being (new / new_raw / new_root / copy), a String Array or List, a Table or Tree with
         String keys and values: every selector used at least once, then everything read back"""
@@ -513,6 +537,7 @@ class NestGen:
 # ------------------------------------------------------------------------------------------------ keep programs
 MAXH = 8
 KINDS = 'altkrqucsw'       # w: the table of a Thread object other than the running thread (set(t, key, obj) on `var t = new(Thread, f)`)
+ROOT_KINDS = 'TACKLRUQ'    # the same containers made with new_root, their only pointer in static storage the collector does not scan
 SEQ_KINDS = 'aluc'
 class KeepGen:
     """containers (every kind that declares Mark, Ref/Box chains, thread-local storage, a Thread object's table) as the SOLE path to collector-managed
@@ -527,8 +552,8 @@ class KeepGen:
     def new(self, kind=None):
         fr = [i for i in range(MAXH) if i not in self.h]
         if not fr or self.serial > 3900: return None
-        h = self.r.choice(fr); kind = kind or self.r.choice(KINDS)
-        self.h[h] = dict(kind=kind, keys=[], n=0); self.emit('hnew', h, kind)
+        h = self.r.choice(fr); kind = kind or (self.r.choice(ROOT_KINDS) if self.r.random() < 0.3 else self.r.choice(KINDS))
+        self.h[h] = dict(kind=kind.lower(), rooted=kind.isupper(), keys=[], n=0); self.emit('hnew', h, kind)
         return h
     def size(self, h): o = self.h[h]; return o['n'] if o['kind'] in SEQ_KINDS else len(o['keys'])
     def put(self, h, key=None):
@@ -593,7 +618,9 @@ class KeepGen:
         elif x < 0.96: self.kill(h)
         else: self.bad()
     def kill(self, h):
-        del self.h[h]; self.emit(self.r.choice(['hdrop', 'hdel']), h)
+        # a root is released with del_root (`hdel`); forgetting the only pointer to it leaks it in every build: out of contract
+        rooted = self.h[h]['rooted']
+        del self.h[h]; self.emit('hdel' if rooted else self.r.choice(['hdrop', 'hdel']), h)
     def bad(self):
         """outside the contract: every build and the model refuse it identically"""
         r = self.r; k = r.randrange(8)
@@ -606,7 +633,30 @@ class KeepGen:
         elif k == 4 and live: self.emit('hput', r.choice(live), 0, 0 if self.serial else 5000, 1)
         elif k == 5: self.emit('hnew', 9, 't')
         elif k == 6 and live: self.emit('hrun', r.choice(live))      # refused unless the holder is a Thread object (then it simply runs)
+        elif k == 7 and any(o['rooted'] for o in self.h.values()): self.emit('hdrop', next(h for h, o in self.h.items() if o['rooted']))   # a root cannot be dropped
+        elif k == 7 and dead is not None: self.emit('hnew', dead, r.choice('SW'))      # no roots of thread-local storage / Thread objects
         else: self.emit('hnew', 1, 'z')
+    def root_scenario(self, kind):
+        """a ROOT outside the collector's view (`static var reg; reg = new_root(<container>)`): filled, then enough allocation to force
+        several threshold collections (and rehashes of the registry) while nothing but the root flag of its registry entry keeps it and
+        what it holds; everything read back; changed (insertions, removals with and without del); pressure again; read back; released
+        with del_root (or kept until the end of the run)"""
+        r = self.r
+        h = self.new(kind)
+        if h is None: return
+        n = r.choice([1, 3, 9, 17, 40])
+        self.fill(h, n, lo=r.choice([n, 40, 0, 3 * n]))
+        self.emit('hread', h)
+        for _ in range(r.choice([2, 3, 4])): self.emit('hchurn', r.choice([200, 300, 400]))
+        if r.random() < 0.5: self.emit('gc')
+        self.emit('hread', h)
+        for _ in range(r.randrange(0, 6)): self.put(h)
+        for _ in range(r.randrange(0, min(n, 4) + 1)): self.remove(h)
+        if kind.lower() in 'tk' and r.random() < 0.5: self.emit('hreserve', h, r.randrange(max(1, self.size(h)), 200))
+        self.pressure(); self.pressure()
+        self.emit('hread', h)
+        if self.size(h): self.emit('hget', h, self.pick_elem(h))
+        if r.random() < 0.7: self.kill(h)
     def exit_scenario(self, kind):
         """process exit (forked child) at moments when the program has itself deleted every Tracked object it made: removals only WITH del
         (`hrem`), holders only deleted (`hdel`), nothing left to the collector — outside the territory of KF-C18-exit-finalisation, so every
@@ -786,6 +836,22 @@ class RtGen:
         elif k == 6: self.emit('ty', 9, 'new', 'Far', 16)
         elif k == 7 and dead is not None: self.emit('tybig', dead, 'raw', 'Big', 16, r.choice([257, 300, -1]), 0)
         else: self.emit('ty', 0, 'sideways', 'X', 8)
+    def cycle(self, rounds):
+        """delete / re-create cycles: a type is asked for every probe class and used through an object (the last lookups before it
+        dies), deleted, and at once another type with another instance list is made — Type_Alloc always asks for the same size, so the
+        allocator hands the same block back — and asked for the same classes: whatever a build remembers about a type by its ADDRESS
+        (beyond the cache words inside the type object, which die with it) now belongs to another type"""
+        r = self.r
+        for j in range(rounds + 1):
+            if len(self.ty) >= MAXTY: return
+            t = self.new_type(r.choice([2, 3, 5, 8, 11]), r.choice(['new', 'root', 'raw', 'con']))
+            if t is None: return
+            o = self.new_obj(t)
+            if o is not None:
+                for q in ('show', 'copy', 'hash', 'size', 'cmp', 'resize', 'cat', 'push'): self.query_obj(o, q)
+            for c in r.sample(RT_PROBE, 8): self.emit('tyq', t, c)
+            for c in ('Show', 'Copy', 'Concat', 'Resize', 'Mark', 'Push'): self.emit('tyq', t, c)      # classes without a reserved cache slot, last
+            self.del_type(t)
     def scenario(self, n, route):
         """the directed shape: a type with n instances by the given route; every probe class asked; two objects used through every
         class the type declares and through the defaults of those it does not; re-constructed in place (shorter, then longer); deleted"""
@@ -832,7 +898,9 @@ class C18(Spec):
                  'containers are the sole path to managed objects (collector = the C01 marker on what each Mark instance presents), source-derived '
                  'tables of every conditional-compilation block re-extracted and re-checked each run, and a differential build matrix '
                  '(configuration switches x optimisation levels) of one interpreted public-API workload; run-time type objects: every index expression of '
-                 'src/Type.c regenerated as a term and evaluated under both values of the cache switch on top of the C08 record model')
+                 'src/Type.c regenerated as a term and evaluated under both values of the cache switch on top of the C08 record model; the root flag of a '
+                 'registry entry: members of struct GCEntry, every initialiser of it, the tests of GC_Mark / GC_Sweep and the callers of GC_Set_Ptr regenerated, '
+                 '"which initialiser item feeds which member" resolved in Lean and used by the keep model`s registry')
     level_text = ('Theorem C18_config_independent: in the model of an API step (type_of checks, cached Type_Instance, method check, guarded '
                   'method body, header_init, registration with the collector, mark and sweep, del) a program whose every step is in-contract '
                   'under the default configuration produces the same outcomes and leaves the same observable object contents under every '
@@ -869,6 +937,12 @@ class C18(Spec):
                   'defined (alloc_by objects AND embedded elements for String_*/Tuple_*; alloc_by objects for dealloc) - that is what makes the '
                   'check removable; C18_memory_checks_follow_allocation: every CELLO_MEMORY_CHECK guard compares with NULL exactly the pointers the statements DIRECTLY before the #if assigned from malloc/calloc/realloc (String_Resize before fix 63509f2 fails it); '
                   'process exit: Keep.kexit models the main wrapper of Cello.h (atexit(Cello_Exit) -> GC_Del sweeps everything still registered; only #ifndef CELLO_NGC; texts regenerated, C18_exit_hook_as_modelled); C18_process_end_refuted — on a program without any error path the builds with and without collector have run different destructors when the process has ended (KF-C18-exit-finalisation); C18_process_end_partial — for every program that itself deletes the objects with observable destructors (Keep.ReleasesAll, decidable) all eight configurations end with the same ledger: every object made, each once; '
+                  'ROOTS (new_root / del_root): translate/g_cfg.py regenerates the members of struct GCEntry in declaration order, every brace initialiser of such an object (positional or designated) with its function, every member-wise assignment, '
+                  'the members the sweep test and the root loop of GC_Mark read, the parameters and every call of GC_Set_Ptr, and the flag each case of alloc_by registers with; Keep.entryInitExpr resolves which initialiser item feeds which member the way C does, '
+                  'Keep.storedRoot r = what the collector`s tests find in the entry made with root argument r, and the registry of the keep model (Keep.toHeap) gives the entry of a new_root container exactly that flag, while the variable holding it is NOT among the stack words (Slot.rooted: static storage). '
+                  'C18_root_flag_reaches_collector_tests (decide over the regenerated tables): the root argument arrives in the member GC_Sweep and GC_Mark test, a new entry starts unmarked, GC_Set_Ptr holds the only initialiser, nothing else writes the flag, GC_Rehash re-inserts with it, '
+                  'alloc_root registers with $I(1) - `bool marked; bool root;` against the positional `{ ptr, ihash, root, 0 }` breaks it; it is the hypothesis (Keep.RootWired) under which every keep theorem above is proved for programs that ALSO keep containers as roots outside the collector`s view; '
+                  'C18_root_flag_needed: with the flag not stored the smallest such program loses its root at the first collection (lemma kcollectW_unwired_loses_root through C01`s gcMark_iff_reach). '
                   'C18_alloc_guards_classify: over all four classes the guards of a function fire exactly where it is undefined '
                   'without them; C18_edit_never_refused_for_its_class: no in-place edit is refused for where its target lives, in any build.')
     level_note = ('PARTIAL by nature: the compiler is not modelled; optimisation levels and the real effect of the switches on the C code are '
@@ -896,7 +970,12 @@ class C18(Spec):
             'of Ref, Table and Tree with the pointer in the value (Int->Ref) or in the key (KCell->Int), heap Tuple, Ref/Box chain through the last word of a '
             'plain struct, thread-local storage, the table of a Thread object that is not the running thread (`var t = new(Thread, f); set(t, key, obj)`; `hrun`: call(t); join(t) — the started thread reads every entry through get(current(Thread), key)) — each the only path to its Tracked objects, filled (maps with keys whose home slots lie beyond the item '
             'count, colliding keys, rehash by resize), put under allocation pressure and forced collections, every element read back (serial, payload, type) '
-            'after removals with and without del, shrinking and clearing; a destructor ledger audited after every operation: no stored object finalised, none '
+            'after removals with and without del, shrinking and clearing; ROOTS: `hnew h <UPPER-CASE kind>` makes the same container (Array, List, both Tables, both Trees, heap Tuple, Ref chain head) with new_root and keeps its ONLY pointer in static storage, XOR-masked - '
+            'a root referenced from the data segment, which the collector does not scan - released with del_root (`hdel`); `nvo`: new_root String / Int objects kept the same way; the harness scrubs the dead stack below main before every operation (48 kB) and runs every '
+            'use of a root in its own frame, so nothing but the root flag of the registry entry keeps a root (and the Tracked objects it holds) alive through the threshold collections that `hchurn` (up to 400 allocations each, 2-4 in a row: several collections and rehashes of the registry) forces; '
+            'after every operation every holder and every new_root object the program still holds must be registered with the collector (public API mem(current(GC), obj), which does not touch the object): a reclaimed root is an oracle failure before freed memory is read; '
+            'one directed root scenario (the eight kinds in rotation: fill, pressure, read back, insert/remove, rehash, pressure, read back, del_root or keep) and two new_root value objects (pressure, read, edit in place, pressure, read, del_root) per case; '
+            'a destructor ledger audited after every operation: no stored object finalised, none '
             'twice, del finalises at once; `hexit`: process exit in a forked child, the ledger read by a destructor-attribute function after Cello_Exit — one directed exit scenario per case, at a moment when everything made was deleted by the program), nine profiles (mixed, sequences, maps with colliding keys, '
             'allocation churn with dropped objects, views, tuples, keep, edits; every case starts with one directed keep scenario (the ten kinds in rotation), '
             'one directed edit scenario (a String made by new / new_raw / new_root in rotation, a String Array or List, a String Table or Tree, every selector '
@@ -910,12 +989,14 @@ class C18(Spec):
                     'clang-14 at -O0/-O2/-O3 with and without ASan/UBSan; libc',
                     'the model abstracts objects to values (no addresses): layouts (header size, cache words) are covered by the table theorems and the build matrix',
                     'run-time types: Cello/Dispatch.lean (record level, Type_Scan / Type_Instance, C08) is imported as it is; the C-integer semantics of index expressions is evaluated in Z (a negative intermediate is not wrapped)',
+                    'roots: that the static cells, the XOR mask and the stack scrubbing of harness/h_cfg.c really hide the pointer from the conservative scan is not proved (on the unchanged tree it cannot matter: the root flag keeps the object; on a changed tree a surviving stray copy can only hide a failure, and the registry audit does not depend on it)',
                     'keep programs: Cello/Heap.lean (marker, C01) and Cello/Table.lean (slot placement, C02) are imported as they are; the model collects when ITS registry count passes the threshold, the real collector at other moments (the registry also holds the rest of the workload): C18_keep_collection_schedule_irrelevant is what bridges the two; Tree shape is not modelled (Tree_Mark = in-order walk over all nodes)')
     assumptions = ('in-contract programs only: every operation is validated against the harness shadow first; bad index, absent key, wrong element type, dead handle are refused before the call',
                    'known-finding territory avoided: Table/Tree equality and hashing (F06), Slice with stop/step (F11), Zip backward (F12), repeated pointers in Tuples (F13), del while the collector is stopped (F23), Box elements (F28), print_to error paths (F29)',
                    'single thread, except `hrun`: one started thread at a time that only reads, while the main thread waits in join (no collection of the main thread`s collector while another thread runs: the unsynchronised walk of a running thread`s table is known finding KF-C13-mark-foreign-tls); no allocation failure; String values <= 30 bytes, containers <= 120 elements',
                    'in-place edits: text [0-9A-Za-z_]*, results <= 30 bytes, print_to position within the text; keys of a Table/Tree are only rewritten with their own value (anything else breaks the map and is out of contract); stack and static Strings are never edited (not defined: their buffer is not a malloc block; that the guards fire there is theorem C18_alloc_guards_classify, the behaviour itself belongs to C12/C19)',
                    'nested holders: <= 8 holders x 12 inner objects x 24 items; embedded Tuples hold built-in Type objects only (static, never freed: known finding KF-C01-dangling-tuple-item avoided) and no object twice (F13); inner containers only shrink by resize',
+                   'roots: a container made with new_root is released with del_root; forgetting the only pointer to it (`hdrop` of a rooted holder) leaks it in every build and is refused as out of contract; no roots of thread-local storage / Thread objects; run-time types and their objects made by the `root` routes are still held in variables of main (their root flag is not what keeps them)',
                    'keep programs: non-negative Int keys <= 10^6, no overwriting of an existing key, at most 8 holders x 120 elements, each Tracked object stored in exactly one place (no sharing, no cycles), Box only as a chain link (F28); released objects are never required to be collected (conservative stack scan)',
                    'run-time types: names [0-9A-Za-z]{1,20}, sizes 8..64, at most CELLO_MAX_INSTANCES instances (more is undefined with the checks compiled out), object values 0..255 (so the default memcmp order is the numeric one), a type is deleted or re-constructed only when no object of it is alive, instances live in static storage (a run-time type keeps the pointers it is given); the default hash (hash_data over the object) is checked in C and printed as `*`',
                    'process exit (audit 2, item 2): known-finding territory KF-C18-exit-finalisation avoided — `hexit` (exit in a forked child, destructor ledger read after the atexit handlers) is generated only at moments when the program has itself deleted every Tracked object it made (hypothesis Keep.ReleasesAll of C18_process_end_partial); an object with an observable destructor that is left to the collector or to the exit-time sweep (main wrapper + Cello_Exit exist only #ifndef CELLO_NGC) is finalised in builds with the collector and never in CELLO_NGC builds: C18_process_end_refuted, witness corpus/kf_c18_exit_finalise.ops. More generally WHEN the destructor of a dropped object runs (threshold collections) is configuration-dependent and not observed by the workload: destructors of everything the workload leaves to the collector (Int, String, containers, Boxes, Tuples) only release memory',
@@ -943,11 +1024,16 @@ class C18(Spec):
             g.keep.exit_scenario(KINDS[(i // 3) % len(KINDS)])      # before anything is dropped: see KF-C18-exit-finalisation
             g.keep.scenario(KINDS[i % len(KINDS)])
             if prof == 'keep': g.keep.scenario(rng.choice('tk'))
+            # one directed ROOT per case (container kinds in rotation) and a pair of new_root value objects: objects whose only
+            # reference lives where the collector does not look, under enough allocation to force several collections
+            g.keep.root_scenario(ROOT_KINDS[i % len(ROOT_KINDS)])
+            g.root_value_scenario(i)
             # one directed edit scenario per case: a String container of each family, every selector applied at once; and one nested holder
             g.edit_scenario(i)
             g.nest.scenario('altr'[i % 4], 'ALU'[(i // 4) % 3])
             # one directed run-time type per case: 0…12 instances and the six routes in rotation (so every count is constructed in every run)
             g.rt.scenario(i % 13, RT_ROUTES[i % 6])
+            g.rt.cycle(2)
             if prof == 'types':
                 g.rt.scenario(rng.choice([4, 5, 6, 7, 8, 12, 16, 24]), rng.choice(RT_ROUTES))
                 g.rt.big_type(rng.choice([13, 60, 250, 255, 256, 256]))
@@ -991,6 +1077,10 @@ class C18(Spec):
         if m:
             for k, g in (('impl_keep_ops', 1), ('impl_keep_reads', 2), ('impl_keep_high_slot_entries_read', 3), ('impl_tracked_objects', 4)):
                 acc[k] = acc.get(k, 0) + int(m.group(g))
+        nr = sum(1 for l in case.lines if l.startswith('hnew ') and len(l.split(' ')) == 3 and l.split(' ')[2].isupper())
+        if nr: acc['root_holders_made'] = acc.get('root_holders_made', 0) + nr
+        nr = sum(1 for l in case.lines if l.startswith('nvo '))
+        if nr: acc['root_value_objects_made'] = acc.get('root_value_objects_made', 0) + nr
         m = re.search(r' thread-runs=(\d+)', c_out)
         if m: acc['impl_thread_holder_runs'] = acc.get('impl_thread_holder_runs', 0) + int(m.group(1))
         m = re.search(r' edits=(\d+) elem-edits=(\d+) nested-ops=(\d+)', c_out)
@@ -1090,6 +1180,9 @@ class C18(Spec):
         nlines = 0
         seen = set()
         sigs = self._kf_sigs(); known_exit = [0]
+        # shrinking is bounded as a whole: on a changed tree every configuration may fail, and a trial on which a build hangs
+        # costs the harness timeout; past the deadline the remaining configurations are reported with the unshrunk case
+        shrink_deadline = time.time() + (300 if tier == 'quick' else 900)
         for job, exe, c, rc, out, err in results:
             tg = tag_of(*job)
             ref = self._ref.get(c.name)
@@ -1106,7 +1199,10 @@ class C18(Spec):
                 seen.add(tg)
                 lines = list(c.lines)
                 try:
-                    lines = core.ddmin(lines, lambda ls: self._differs(hexe, exe, ls, 'shr' + tg) is not None, budget=60 if tier == 'quick' else 150)
+                    left = shrink_deadline - time.time()
+                    if left > 5:
+                        lines = core.ddmin(lines, lambda ls: self._differs(hexe, exe, ls, 'shr' + tg) is not None,
+                                           budget=60 if tier == 'quick' else 150, max_s=min(left, 240))
                     why2 = self._differs(hexe, exe, lines, 'shr' + tg)
                     if why2: why = why2
                 except Exception as e:
